@@ -35,6 +35,9 @@ StepDiffs(S, S1, e) ==
       /\ SubSeq(S1.toks, 1, fc) = SubSeq(S.toks, 1, fc)
       /\ \A j \in 1..Len(e.tt) : TokCoreM(S1.toks[fc + j]) = <<e.tt[j].ty, e.tt[j].ch, e.tt[j].c, e.tt[j].pk, e.tt[j].ps, e.tt[j].pe>>
      THEN {} ELSE {"tokens"}) \cup
+  \* integer payloads (resolve depth of MacroVarResolve, value of an error-free integer literal) where the model has them
+  (IF nt = fc + Len(e.tt) => \A j \in 1..Len(e.tt) : S1.toks[fc + j].pi \in {<<>>, e.tt[j].pi}
+     THEN {} ELSE {"integer-payload"}) \cup
   (IF Len(S1.lines) = e.la /\ (e.la >= 1 => S1.lines[e.la] = (IF e.lt = <<>> THEN S1.lines[e.la] ELSE e.lt[Len(e.lt)][2]))
      THEN {} ELSE {"lines"}) \cup
   (IF /\ Len(S1.errs) = e.eb + Len(e.ne)
@@ -54,7 +57,7 @@ Adopt(S, e) ==
         !.pend = e.cfg.pend, !.nest = e.cfg.nest, !.ops = e.ops, !.fault = "",
         !.toks = SubSeq(S.toks, 1, IF e.fc < Len(S.toks) THEN e.fc ELSE Len(S.toks))
                  \o [j \in 1..Len(e.tt) |-> [ty |-> e.tt[j].ty, ch |-> e.tt[j].ch, c |-> e.tt[j].c,
-                                              pk |-> e.tt[j].pk, ps |-> e.tt[j].ps, pe |-> e.tt[j].pe]],
+                                              pk |-> e.tt[j].pk, ps |-> e.tt[j].ps, pe |-> e.tt[j].pe, pi |-> e.tt[j].pi]],
         !.lines = SubSeq(S.lines, 1, IF lkeep < Len(S.lines) THEN lkeep ELSE Len(S.lines))
                   \o [j \in 1..Len(e.lt) |-> e.lt[j][2]],
         !.errs = S.errs \o [j \in 1..Len(e.ne) |-> [k |-> e.ne[j].k, c |-> e.ne[j].c, lt |-> e.ne[j].lt]]]
@@ -105,7 +108,10 @@ ModelRec(r) ==
       endc(i) == IF i < n THEN F.toks[i+1].c ELSE F.toks[i].c
       tk(i) == [i |-> i - 1, ty |-> F.toks[i].ty, ch |-> F.toks[i].ch,
                 c |-> F.toks[i].c, ec |-> endc(i), b |-> r.cb[F.toks[i].c + 1], eb |-> r.cb[endc(i) + 1],
-                pk |-> F.toks[i].pk, ps |-> F.toks[i].ps, pe |-> F.toks[i].pe]
+                pk |-> F.toks[i].pk, ps |-> F.toks[i].ps, pe |-> F.toks[i].pe, pi |-> F.toks[i].pi,
+                pis |-> IF F.toks[i].ty = "MacroVarResolve" /\ F.toks[i].pi # <<>>
+                          THEN ToString(IF Len(F.toks[i].pi) = 2 THEN 10 * F.toks[i].pi[1] + F.toks[i].pi[2] ELSE F.toks[i].pi[1])
+                          ELSE ""]
   IN [ok |-> F.fault = "", budget_exceeded |-> FALSE, panic |-> "", mfault |-> F.fault, events |-> <<>>,
       toks |-> [i \in 1..n |-> tk(i)], ntoks |-> n,
       errs |-> [i \in 1..Len(F.errs) |-> [k |-> F.errs[i].k, c |-> F.errs[i].c, b |-> r.cb[F.errs[i].c + 1], lt |-> F.errs[i].lt]],
@@ -118,7 +124,8 @@ M_same_toks(r) ==
   ELSE {i \in 1..Len(r.toks) :
           \/ m.toks[i].ty # r.toks[i].ty \/ m.toks[i].ch # r.toks[i].ch \/ m.toks[i].c # r.toks[i].c
           \/ m.toks[i].pk # r.toks[i].pk
-          \/ (r.toks[i].pk = "s" /\ (m.toks[i].ps # r.toks[i].ps \/ m.toks[i].pe # r.toks[i].pe))}
+          \/ (r.toks[i].pk = "s" /\ (m.toks[i].ps # r.toks[i].ps \/ m.toks[i].pe # r.toks[i].pe))
+          \/ (r.toks[i].pk = "i" /\ m.toks[i].pi # <<>> /\ m.toks[i].pi # r.toks[i].pi)}
 M_same_errs(r) ==
   LET m == ModelRec(r) IN
   IF Len(m.errs) # Len(r.errs) THEN {0 - 1}
